@@ -51,12 +51,17 @@ def stop_set(fx):
     return st
 
 
-def view(fx, path, depth=6, extra_stop=()):
+def view(fx, path, depth=6, extra_stop=(), threaded=True):
     f = fx.fn(path)
     if f is None:
         return None
     st = (stop_set(fx) | set(extra_stop)) - {path}
-    return inline.inlined(fx, f, depth, stop=tuple(sorted(st)))
+    k = ("view", id(fx), path, depth, tuple(sorted(extra_stop)), threaded)
+    if k not in _cache:
+        import thread
+        v = inline.inlined(fx, f, depth, stop=tuple(sorted(st)))
+        _cache[k] = thread.threaded(v) if threaded else v
+    return _cache[k]
 
 
 def backup_mode_fn(fx):
